@@ -768,12 +768,15 @@ func (i *Inc) handle(m message.Message) {
 			go func() {
 				select {
 				case <-time.After(d):
+					b.rec.Log("BPongQueued", "c", i.c, "rid", int(t.RequestID))
 					i.send(&message.Pong{RequestID: t.RequestID}, "BSendPong", "rid", int(t.RequestID))
 				case <-i.closed:
 				}
 			}()
 			return
 		}
+		// the broker's answer = the pong put into its (ordered) output stream; BSendPong is logged when the client has taken it
+		b.rec.Log("BPongQueued", "c", i.c, "rid", int(t.RequestID))
 		i.send(&message.Pong{RequestID: t.RequestID}, "BSendPong", "rid", int(t.RequestID))
 	case *message.Pong:
 		b.rec.Log("BRecvPong", "c", i.c, "rid", int(t.RequestID))
